@@ -63,7 +63,7 @@ chk("C08",
     "DESIGN.md section 6, C08")
 
 chk("C16",
-    "Every bounded input is parsed; every root block outside the stated exception is re-parsed alone from its Source through NewBlockParser+Rewrite with the document's reference map, and must give exactly one block with an identical dump (kinds, accessors, spans, leaf text) that consumes all of Source.",
+    "Every bounded input is parsed; every root block outside the stated exception is re-parsed alone from its Source through NewBlockParser+Rewrite with the document's reference map, and must give exactly one block with an identical dump (kinds, accessors, spans, leaf text) that consumes all of Source; inputs written with LF are also judged with CRLF and with CR line endings.",
     COMMON_NOTE + " One known finding (setext heading continuing a paragraph that began with reference definitions) is listed by exact failing inputs in known/C16-setext-after-refdef.cases.",
     "stateless explicit enumeration of all bounded inputs x every root block; differential oracle document-parse vs stand-alone re-parse on the real code",
     "DESIGN.md section 6, C16")
@@ -105,7 +105,7 @@ chk("C17",
     "DESIGN.md section 6, C17")
 
 chk("C11",
-    "Every string up to the stated length over the 5-symbol and the 8-symbol emphasis alphabets (non-ASCII punctuation, space and letter included) and, deeper, over the sub-alphabets {* _ a space} (11/13 symbols) and {* _ a} (13/16), and every sequence of 6/7 whole delimiter runs with built-in flanking context (openers, closers, both-flanking runs of * and _ of length 1-3), that is a one-paragraph document (by the reference recognisers; others skipped and counted) is parsed and rendered by the real code and compared with an executable transcription of spec 6.2 flanking + the appendix's process-emphasis procedure without the openers_bottom optimisation.",
+    "Every string up to the stated length over the 5-symbol and the 8-symbol emphasis alphabets (non-ASCII punctuation, space and letter included) and, deeper, over the sub-alphabets {* _ a space} (11/13 symbols) and {* _ a} (13/16), and every sequence of 6/7 whole delimiter runs with built-in flanking context (openers, closers, both-flanking runs of * and _ of length 1-3), and every sequence of 8/9 delimiters, letters, spaces and complete inline links, that is a one-paragraph document (by the reference recognisers; others skipped and counted) is parsed and rendered by the real code and compared with an executable transcription of spec 6.2 flanking + the appendix's process-emphasis procedure without the openers_bottom optimisation.",
     "Bounded scope (lengths in the evidence). The reference is self-tested on the spec's emphasis examples that use no other syntax before every run.",
     "exhaustive enumeration of all bounded delimiter-run strings; reference-model (spec procedure) comparison on the real parser's rendered output",
     "DESIGN.md section 6, C11")
@@ -135,12 +135,12 @@ chk("C06",
     "stateless model checking of a closed generator-serializer-parser-renderer system: exhaustive enumeration of abstract documents x deviation-bounded serializer spellings; reference denotation as oracle",
     "DESIGN.md section 6, C06; Appendix A")
 chk("C09",
-    "Every tab-free bounded input D is quoted with each of 4 block quote marker spellings and, when admissible, indented under each of 7 list markers with N=1..4; every variant must parse to exactly one block quote / one one-item list whose safe-mode rendering is D's rendering wrapped (through ref.Norm, modulo renderer-made <p> for the tight one-item list), whose raw HTML (rendering with raw tags for quotes; the tree's tag and HTML-block text for lists) is D's, with an equal reference map.",
+    "Every tab-free bounded input D is quoted with each of 4 block quote marker spellings and, when admissible, indented under each of 7 list markers with N=1..4; every variant must parse to exactly one block quote / one one-item list whose safe-mode rendering is D's rendering wrapped (through ref.Norm, modulo renderer-made <p> for the tight one-item list), whose raw HTML (rendering with raw tags for quotes; the tree's tag and HTML-block text for lists) is D's, with an equal reference map; documents with brackets are also judged with CRLF and with CR line endings.",
     COMMON_NOTE,
     "stateless explicit enumeration of all bounded inputs x 32 container transformations; metamorphic oracle on the real parser and renderer",
     "DESIGN.md section 6, C09")
 chk("C20",
-    "First clause: the real Format is closed with a scripted writer (with and without WriteString) that may fail at any one write call; every fault point of every bounded input is one execution (returned error must be that writer's error, no write after it), the fault-free execution checks nil error, determinism, equality across writer kinds and an unchanged tree. Second clause: every canonical-style document of the supported construct set S_fmt (block skeletons, inline sequences, escaped texts of up to three characters over the 32 punctuation characters, nested-list trees, container chains and code-block contents of the C06 generator in canonical spelling) is formatted, re-parsed and compared on rendered HTML, and re-formatted for byte equality.",
+    "First clause: the real Format is closed with a scripted writer (with and without WriteString) that may fail at any one write call, with no data taken or (writer without WriteString) after one byte was taken; every fault point of every bounded input is one execution (returned error must be that writer's error, no write after it), the fault-free execution checks nil error, determinism, equality across writer kinds and an unchanged tree. Second clause: every canonical-style document of the supported construct set S_fmt (block skeletons, inline sequences, escaped texts of up to three characters over the 32 punctuation characters, nested-list trees, container chains and code-block contents of the C06 generator in canonical spelling) is formatted, re-parsed and compared on rendered HTML, and re-formatted for byte equality.",
     "Bounded scope (alphabets, lengths, document sizes in the evidence). S_fmt is fixed in DESIGN.md section 6 (C20); documents outside it are counted, not judged.",
     "fault enumeration over a controlled writer (every write-call fault point) + exhaustive enumeration of canonical documents with a round-trip oracle",
     "DESIGN.md section 6, C20", "fault_enumeration")
